@@ -308,6 +308,10 @@ thread_local! {
     static RECLAIM: std::cell::Cell<bool> = const { std::cell::Cell::new(false) };
 }
 
+pub fn reclaim_check_on() -> bool {
+    RECLAIM.with(|c| c.get())
+}
+
 pub fn set_reclaim_check(on: bool) {
     RECLAIM.with(|c| c.set(on));
 }
